@@ -52,6 +52,40 @@ def check_claims_unit(rep, ctx):
     rep.add(Query("witness: from_audit_entry has a succeeding path", "witness-hit" if n else "witness-missed", "%d" % n, 0, "mirsym"))
 
 
+def check_map_ops_unit(rep, ctx):
+    """lookup and removal use the SAME key, built from the port they are given: BpfObject::lookup_audit(port) reads audit_map[key(port)] and
+    returns that value's fields; BpfObject::remove_audit_map_entry(port) reports success only after audit_map.remove(key(port))"""
+    for fn, op in (("lookup_audit", r"HashMap.*::get$"), ("remove_audit_map_entry", r"HashMap.*::remove$")):
+        try:
+            w = ctx.method("BpfObject", fn)
+        except Inconclusive as ex:
+            rep.add(Query("BpfObject::%s located" % fn, "inconclusive", str(ex), 0, "mirsym", key="C07.map-ops:" + fn))
+            continue
+        eng = ctx.engine(loop_bound=1)
+        eng.auto_inline = ctx.new_function_auto()
+        n = 0
+        for i, r in enumerate(eng.explore(w)):
+            if not (r.status == "return" and isinstance(r.ret, Agg) and r.ret.variant == "Ok"):
+                continue
+            n += 1
+            ev = r.events
+            ops = [e for e in ev if e.kind == "call" and re.search(op, e.callee)]
+            fk = [e for e in ev if e.kind == "call" and e.callee.endswith("from_source_port")]
+            ta = [e for e in ev if e.kind == "call" and e.callee.endswith("to_array")]
+            mp = [e for e in ev if e.kind == "call" and re.search(r"::map(_mut)?$", e.callee)]
+            ok = len(ops) == 1 and len(fk) >= 1 and same_origin(fk[0].rargs[0], r.args[1]) and any(t.ret is origin(ops[0].rargs[1]) and t.rargs[0] is fk[0].ret or (t.ret is origin(ops[0].rargs[1]) and same_origin(t.rargs[0], fk[0].ret)) for t in ta) and \
+                bool(mp) and isinstance(origin(mp[0].rargs[1]), StrV) and origin(mp[0].rargs[1]).e.as_string() == "audit_map" and implied(r, ops[0].ret.discr() != 1)
+            detail = "%d map operation(s) of the expected kind; key from the given port: %s" % (len(ops), bool(fk) and same_origin(fk[0].rargs[0], r.args[1]))
+            if ok and fn == "lookup_audit":
+                fa = [e for e in ev if e.kind == "call" and e.callee.endswith("from_array")]
+                ok = len(fa) == 1 and derives(fa[0].rargs[0], ops[0].ret, ev) and isinstance(r.ret.fields[0], Agg) and all(isinstance(f, Scalar) or derives(f, fa[0].ret, ev) for f in r.ret.fields[0].fields)      # (numeric fields are casts of the value's fields: scalars)
+                detail += "; every field of the returned record comes from the value read: %s" % ok
+            rep.add(Query("%s path %d: success <= exactly one audit_map %s under the key of the given source port" % (fn, i, "read" if fn == "lookup_audit" else "delete"), "holds" if ok else "violated", detail, 0,
+                          "mirsym+z3", key="C07.map-ops:" + fn, reproduced=None))
+        rep.functions_encoded.append(w)
+        rep.add(Query("witness: %s has a succeeding path" % fn, "witness-hit" if n else "witness-missed", "%d" % n, 0, "mirsym"))
+
+
 def check(rep, tier, seed):
     ctx = Ctx("agent")
     rep.extra["mir_dump"] = {"cache_hit": ctx.dump.cache_hit, "tree_hash": ctx.dump.hash, "seconds": round(ctx.dump.seconds, 1)}
@@ -221,6 +255,7 @@ def check(rep, tier, seed):
     rep.outside_claim += ["schedules: two accepts racing on one source port between lookup and remove (separate lock acquisitions); Kani/mirsym do not model tokio's scheduler",
                           "how Process::from_pid and get_user inspect the process / user database"]
     check_claims_unit(rep, ctx)
+    check_map_ops_unit(rep, ctx)
     rep.trusted += ["mirsym", "z3"]
     import batteries
     batteries.confirm(rep, "C07")
